@@ -259,3 +259,50 @@ Definition holds_any (a : any_case) : bool :=
   end.
 Definition corr_hist (h : list any_case) : bool := forallb corr_any h.
 Definition holds_hist (h : list any_case) : bool := forallb holds_any h.
+
+(* ------------------------------------------------------------------ machine floats (inexact arithmetic) *)
+(* The implementation is run on plain Python floats.  Its outputs (exact rationals of the observed floats) must
+   (1) lie in [0, modulo) AS SUCH - no tolerance: "reduced into [0, modulo)" - and (2) agree with the exact closed
+   form as points of the circle up to the stated rounding tolerance; so all branches / fast paths also agree with
+   each other.  corr compares with the exact model the same way. *)
+Definition circ_close (m tol a b : Qc) : bool :=
+  let d := Qc_abs (a - b) in Qc_leb d tol || Qc_leb (Qc_abs m - d) tol.
+Fixpoint close_list (ms : nat -> Qc) (tol : Qc) (i : nat) (a b : list Qc) : bool :=
+  match a, b with
+  | [], [] => true
+  | x :: a', y :: b' => circ_close (ms i) tol x y && close_list ms tol (S i) a' b'
+  | _, _ => false
+  end.
+Definition in_range_mod (m v : Qc) : bool :=
+  if Qc_ltb 0 m then Qc_leb 0 v && Qc_ltb v m
+  else if Qc_ltb m 0 then Qc_ltb m v && Qc_leb v 0 else true.
+Fixpoint range_list (ms : nat -> Qc) (i : nat) (l : list Qc) : bool :=
+  match l with [] => true | v :: l' => in_range_mod (ms i) v && range_list ms (S i) l' end.
+
+Record fmc_case := FMC { f_start : arg; f_modulo : arg; f_step : arg; f_k : nat; f_tol : Qc;
+                         f_obs : list Qc; f_end : ending }.
+Definition corr_fmc (c : fmc_case) : bool :=
+  let r := modulo_counter (f_start c) (f_modulo c) (f_step c) (f_k c) in
+  ending_eqb (snd r) (f_end c) && close_list (arg_nth (f_modulo c)) (f_tol c) 0 (fst r) (f_obs c).
+Definition holds_fmc (c : fmc_case) : bool :=
+  let r := mc_spec (f_start c) (f_modulo c) (f_step c) (f_k c) in
+  ending_eqb (snd r) (f_end c) && close_list (arg_nth (f_modulo c)) (f_tol c) 0 (fst r) (f_obs c)
+  && range_list (arg_nth (f_modulo c)) 0 (f_obs c).
+
+(* float TableLookup oscillator: value tolerance (the cyclic interpolation is continuous on the circle) *)
+Fixpoint near_list (tol : Qc) (a b : list Qc) : bool :=
+  match a, b with
+  | [], [] => true
+  | x :: a', y :: b' => Qc_leb (Qc_abs (x - y)) tol && near_list tol a' b'
+  | _, _ => false
+  end.
+Record ftab_case := FT { ft_tbl : list Qc; ft_cycles : Qc; ft_cl : Qc; ft_freq : arg; ft_phase : arg; ft_k : nat;
+                         ft_tol : Qc; ft_obs : list Qc; ft_end : ending }.
+Definition corr_ftab (c : ftab_case) : bool :=
+  let r := table_call_cl (ft_tbl c) (ft_cl c) (ft_freq c) (ft_phase c) (ft_k c) in
+  cl_plausible (ft_tbl c) (ft_cycles c) (ft_cl c)
+  && ending_eqb (snd r) (ft_end c) && near_list (ft_tol c) (fst r) (ft_obs c).
+Definition holds_ftab (c : ftab_case) : bool :=
+  let r := table_call_spec_cl (ft_tbl c) (ft_cl c) (ft_freq c) (ft_phase c) (ft_k c) in
+  cl_plausible (ft_tbl c) (ft_cycles c) (ft_cl c)
+  && ending_eqb (snd r) (ft_end c) && near_list (ft_tol c) (fst r) (ft_obs c).
